@@ -54,7 +54,9 @@ func RandValue(r *rand.Rand, d int) V {
 		return VInt(r.Intn(25) - 5)
 	case 4:
 		return VInt(r.Intn(60001) - 30000)
-	case 5, 6:
+	case 5:
+		return VFloat(r.Intn(4), 0)
+	case 6:
 		return VFloat(2*(r.Intn(4001)-2000)+1, 1+r.Intn(4))
 	case 7, 8:
 		return VStr(strPool[r.Intn(len(strPool))])
@@ -362,8 +364,11 @@ func (g *ExprGen) leaf(want string) E {
 				return p
 			}
 		}
-		if g.pick(2) == 0 {
+		switch g.pick(8) {
+		case 0, 1, 2, 3:
 			return EInt(g.pick(13) - 3)
+		case 4:
+			return EFloat(g.pick(5), 0) // integral floats incl. 0.0
 		}
 		return EFloat(2*(g.pick(401)-200)+1, 1+g.pick(3))
 	case "bool":
